@@ -572,25 +572,25 @@ pub fn run(ctx: &Ctx) {
         "c02" => c02_cases(&mut out, &mut r, t),
         "c07" => {
             c07_cases(&mut out, &mut r, t);
-            for _ in 0..(if t { 200 } else { 30 }) {
+            for _ in 0..(if t { 600 } else { 30 }) {
                 run_scenario(&mut out, mixed(&mut r, t, "c07-mix", 0, 50));
             }
         }
         "c08" => {
-            for i in 0..(if t { 3000 } else { 150 }) {
+            for i in 0..(if t { 8000 } else { 150 }) {
                 let fault = if i % 3 == 0 { r.range(1, 50) as u8 } else { 0 };
                 run_scenario(&mut out, mixed(&mut r, t, "c08", fault, 60));
             }
         }
         "c09" => {
-            for _ in 0..(if t { 1500 } else { 120 }) {
+            for _ in 0..(if t { 4000 } else { 120 }) {
                 run_scenario(&mut out, mixed(&mut r, t, "c09", 0, 25));
             }
         }
         "c11" => c11_cases(&mut out, &mut r, t),
         "c12" => c12_cases(&mut out, &mut r, if t { 6 } else { 4 }),
         "c17" => {
-            for _ in 0..(if t { 600 } else { 80 }) {
+            for _ in 0..(if t { 1500 } else { 80 }) {
                 run_scenario(&mut out, mixed(&mut r, t, "c17", 0, 35));
             }
             // the status timer (status_interval 1 s -> every 100 ms) publishes per-client snapshots through the
@@ -604,7 +604,7 @@ pub fn run(ctx: &Ctx) {
             }
         }
         "c20" => {
-            for i in 0..(if t { 600 } else { 60 }) {
+            for i in 0..(if t { 1500 } else { 60 }) {
                 let fault = if i % 2 == 0 { r.range(1, 50) as u8 } else { 0 };
                 run_scenario(&mut out, mixed(&mut r, t, "c20", fault, 40));
             }
